@@ -131,6 +131,10 @@ class BoxV:
         self.role = role
 
 
+class NeedLength(Exception):
+    """the decision function consults the signed length of a curve: the row is expanded by the order of the lengths"""
+
+
 class Recursion(Exception):
     """the decision function re-enters itself on complemented operands without reaching a base case"""
 
@@ -166,6 +170,8 @@ class Interp:
                    overlap=self.row["overlap"])
         if "vin" in self.row:
             row["vin"] = self.row["vin"]
+        if "lA" in self.row:
+            row["lA"], row["lB"] = (self.row["lA"], self.row["lB"]) if X.role == "A" else (self.row["lB"], self.row["lA"])
         if "touch" in self.row:
             t = self.row["touch"]
             row["touch"] = t if X.role == "A" or t == "none" else {"A0": "B0", "B0": "A0"}[t]
@@ -283,7 +289,10 @@ class Interp:
                 if isinstance(v, Shape):
                     return self.area(v)
                 if isinstance(v, Jordan):
-                    return (self.row["sA"] if v.role == "A" else self.row["sB"]) * 3
+                    # float(curve) is its signed *length*: the sign of the orientation, a magnitude unrelated to the area
+                    if "lA" not in self.row:
+                        raise NeedLength()
+                    return (self.row["sA"] * self.row["lA"]) if v.role == "A" else (self.row["sB"] * self.row["lB"])
             if isinstance(f, ast.Name) and f.id == "abs" and len(e.args) == 1:
                 return abs(self.ev(e.args[0]))
             if isinstance(f, ast.Name) and f.id == "bool" and len(e.args) == 1:
@@ -356,18 +365,29 @@ def r03_1(ctx):
     _CTX = ctx
     wrong = {}
     n = 0
-    for row in rows():
+    pending = list(rows())
+    while pending:
+        row = pending.pop(0)
         n += 1
         want = truth(row["case"], row["sA"], row["sB"])
         tag = f"{CASE_NAME[row['case']]}, A {'bounded' if row['sA'] > 0 else 'unbounded'}, " \
               f"B {'bounded' if row['sB'] > 0 else 'unbounded'}"
         try:
             got = Interp(fn, row).run()
+        except NeedLength:
+            # the lengths of the two boundaries are in no relation to the areas (a comb in a square has the longer
+            # boundary); the same curve has the same length
+            orders = [(2, 2)] if row["case"] == 4 else [(1, 4), (4, 1), (2, 2)]
+            pending[:0] = [dict(row, lA=a, lB=b) for a, b in orders]
+            n -= 1
+            continue
         except Recursion:
             got = "unbounded recursion"
         except Undecided as ex:
             out.undecided(fn.qname, f"row not interpretable ({tag}): {ex}", where=fn.where())
             continue
+        if "lA" in row:
+            tag += f"; lengths {row['lA']},{row['lB']}"
         if got != want:
             wrong.setdefault((row["case"], row["sA"], row["sB"], got), []).append(row)
         else:
@@ -378,7 +398,8 @@ def r03_1(ctx):
             ("A bounded, B unbounded" if sA > 0 else "A unbounded, B bounded")
         out.bad(fn.qname, f"{kind}, {CASE_NAME[case]}: returns {got}", where=fn.where(),
                 detail=f"the subset relation is {not got} there ({len(rws)} table rows, e.g. areas "
-                       f"|A|={rws[0]['mA']} |B|={rws[0]['mB']}, boxes overlap={rws[0]['overlap']})")
+                       f"|A|={rws[0]['mA']} |B|={rws[0]['mB']}, boxes overlap={rws[0]['overlap']}"
+                       + (f", boundary lengths {rws[0]['lA']} and {rws[0]['lB']}" if "lA" in rws[0] else "") + ")")
     return out
 
 
